@@ -312,21 +312,50 @@ def run(repo, rep, tier):
                     ok = False
                 rep.check('ownership', 'shared configuration is only read or deep-copied: %s' % stmt_text(n._parent if not isinstance(n._parent, ast.stmt) else n._parent)[:60], ok, n, 'shared configuration %s escapes the worker (%s)' % (sp, unparse(par)[:60]))
     # copy.deepcopy of the configuration must really be deep: a custom copy protocol on AuditConf / Policy may only share immutable values
+    IMMUTABLE_TYPES = {'str', 'int', 'bool', 'float', 'bytes', 'type(None)', 'NoneType', 'tuple', 'frozenset'}
+
+    def _imm_guard(test, var):
+        """test is `not isinstance(var, <immutable types>)` (the deep copy is skipped only for immutable values)"""
+        if isinstance(test, ast.UnaryOp) and isinstance(test.op, ast.Not) and isinstance(test.operand, ast.Call) and unparse(test.operand.func) == 'isinstance' and len(test.operand.args) == 2 \
+                and unparse(test.operand.args[0]) == var:
+            t = test.operand.args[1]
+            names = [unparse(x) for x in (t.elts if isinstance(t, ast.Tuple) else [t])]
+            return all(n in IMMUTABLE_TYPES for n in names)
+        return False
     for modname, cname in (('auditconf', 'AuditConf'), ('policy', 'Policy')):
         cdef = repo.cls(modname, cname)
         for st in cdef.body:
-            if isinstance(st, ast.FunctionDef) and st.name in ('__deepcopy__', '__copy__', '__reduce__', '__reduce_ex__'):
+            if isinstance(st, ast.FunctionDef) and st.name in ('__deepcopy__', '__copy__', '__reduce__', '__reduce_ex__', '__getstate__', '__setstate__') and not (cname == 'Policy' and st.name in ('__getstate__', '__setstate__')):
+                # every value placed into the copy is produced by copy.deepcopy(...), is a literal, or skips the deep copy only under `isinstance(v, <immutable types>)`
                 shared = []
+                stores = []
                 for n in ast.walk(st):
-                    # any value placed into the copy that is not produced by copy.deepcopy(...)
-                    if isinstance(n, ast.Assign) and isinstance(n.targets[0], (ast.Subscript, ast.Attribute)) and 'dup' in unparse(n.targets[0]) or (isinstance(n, ast.Assign) and isinstance(n.targets[0], ast.Subscript) and '__dict__' in unparse(n.targets[0])):
-                        v = n.value
-                        parts = [v.body, v.orelse] if isinstance(v, ast.IfExp) else [v]
-                        for pv in parts:
-                            if not (isinstance(pv, ast.Call) and unparse(pv.func) == 'copy.deepcopy') and not isinstance(pv, ast.Constant):
-                                shared.append(unparse(n)[:100])
+                    if isinstance(n, ast.Call) and unparse(n.func) in ('object.__setattr__', 'setattr') and len(n.args) == 3:
+                        stores.append((n, n.args[2]))
+                    elif isinstance(n, ast.Assign) and isinstance(n.targets[0], (ast.Subscript, ast.Attribute)) and not unparse(n.targets[0]).startswith('memo'):
+                        stores.append((n, n.value))
+                    elif isinstance(n, ast.Call) and isinstance(n.func, ast.Attribute) and n.func.attr == 'update' and '__dict__' in unparse(n.func.value) and n.args:
+                        stores.append((n, n.args[0]))
+                for site, v in stores:
+                    parts = [v.body, v.orelse] if isinstance(v, ast.IfExp) else [v]
+                    for pv in parts:
+                        if (isinstance(pv, ast.Call) and unparse(pv.func) == 'copy.deepcopy') or isinstance(pv, ast.Constant):
+                            continue
+                        if isinstance(pv, ast.Name):
+                            defs = [d for d in ast.walk(st) if isinstance(d, ast.Assign) and any(isinstance(t, ast.Name) and t.id == pv.id for t in d.targets)]
+                            deep = [d for d in defs if isinstance(d.value, ast.Call) and unparse(d.value.func) == 'copy.deepcopy']
+                            other = [d for d in defs if d not in deep]
+                            raw_sources = bool(other) or any(isinstance(x, ast.For) and any(isinstance(t, ast.Name) and t.id == pv.id for t in ast.walk(x.target)) for x in ast.walk(st)) or pv.id in [a.arg for a in st.args.args]
+                            if deep and not other:
+                                conds = [(t, pol) for d in deep for t, pol, k in path_condition(d) if k in ('if', 'guard')]
+                                inner = [(t, pol) for t, pol in conds if any(isinstance(x, ast.Name) and x.id == pv.id for x in ast.walk(t))]
+                                if not raw_sources or not inner or all(pol and _imm_guard(t, pv.id) for t, pol in inner):
+                                    continue
+                                shared.append('%s  [deep copy only when %s]' % (unparse(site)[:70], ' and '.join(unparse(t)[:60] for t, pol in inner)))
+                                continue
+                        shared.append(unparse(site)[:100])
                 rep.check('ownership', '%s.%s shares no mutable state between a configuration and its copy' % (cname, st.name), not shared, st,
-                          '%s.%s hands objects to the copy by reference (%s): workers that deep-copy the configuration still share them (e.g. the Policy error accumulator), so one target\'s policy errors appear on another' % (cname, st.name, shared[0] if shared else ''))
+                          '%s.%s hands objects to the copy by reference (%s): workers that deep-copy the configuration still share them (e.g. the Policy error accumulator), so one target\'s policy errors appear on another' % (cname, st.name, '; '.join(shared[:3])))
     # values taken over from the shared configuration must be immutable scalars (anything else would alias shared state)
     aci = repo.func('auditconf', 'AuditConf.__init__')
     scalars = set()
